@@ -279,14 +279,12 @@ func (r *Router) deployTargetsIntoService(service *Service, targetSlot TargetSlo
 	}
 	verifPoint("deploy.healthy", service.name, int(targetSlot))
 
-	replaced := service.UpdateLoadBalancer(lb, targetSlot)
-	verifPoint("deploy.lb.updated", service.name, int(targetSlot))
-
-	err = r.installService(service)
+	replaced, err := r.installService(service, lb, targetSlot)
 	if err != nil {
 		lb.Dispose()
 		return err
 	}
+	verifPoint("deploy.lb.updated", service.name, int(targetSlot))
 	verifPoint("deploy.installed", service.name, int(targetSlot))
 
 	if replaced != nil {
@@ -299,24 +297,44 @@ func (r *Router) deployTargetsIntoService(service *Service, targetSlot TargetSlo
 	return nil
 }
 
-func (r *Router) installService(s *Service) error {
+// installService puts the new load balancer into its slot of the service and
+// the service into the routing table, in one step under the write lock. What a
+// deploy replaces is therefore whatever is installed at that moment, not what
+// the command saw when it started: another command for the same service may
+// have completed while this one was waiting for its targets to become healthy.
+func (r *Router) installService(s *Service, lb *LoadBalancer, slot TargetSlot) (*LoadBalancer, error) {
 	defer r.saveStateSnapshot()
 
+	var replaced *LoadBalancer
+
 	err := r.withWriteLock(func() error {
+		current := r.services.Get(s.name)
+		if current != nil && current != s {
+			if slot == TargetSlotRollout {
+				// A rollout deploy changes the installed service, which may by
+				// now be a newer copy than the one this command looked up.
+				s = current
+			} else {
+				// A deploy installs its own copy of the service. Bring the
+				// copy up to date with what is installed now.
+				s.active, s.rollout, s.rolloutController = current.loadBalancers()
+			}
+		} else if current == nil && slot == TargetSlotRollout {
+			return ErrorServiceNotFound
+		}
+
 		conflict := r.services.CheckAvailability(s.name, s.options)
 		if conflict != nil {
 			slog.Error("Host settings conflict with another service", "service", conflict.name)
 			return ErrorHostInUse
 		}
 
+		replaced = s.UpdateLoadBalancer(lb, slot)
 		r.services.Set(s)
 		return nil
 	})
-	if err != nil {
-		return err
-	}
 
-	return nil
+	return replaced, err
 }
 
 func (r *Router) findOrCreateService(name string, options ServiceOptions, targetOptions TargetOptions) (*Service, error) {
